@@ -231,7 +231,9 @@ def inMatchAtLoop (input : List Item) : Nat → Word → SegPos → Option SegPo
     Res (List MatchEl × Option SegPos × Option SegPos × Bool × Binds)
   | 0, _, _, _, _, _, _ => .outOfFuel "input_match_at"
   | fuel + 1, w, cur, mb, si, caps, b =>
-    if !w.inB cur then .ok (caps, none, mb, false, b)           -- loop ended without a full match
+    -- loop ended without a full match; the word-final `$` is only granted when every state before the last has matched
+    -- (`state_index == self.input.len() - 1`), so a partial match is reported as "had not begun"
+    if !w.inB cur then .ok (caps, none, if si = input.length - 1 then mb else none, false, b)
     else do
       let r ← inMatchItem fuel w input caps si cur b
       if r.ok then
